@@ -27,6 +27,11 @@ from urwid.widget import listbox as _lbmod
 W = PROTOCOLS["Widget"]
 
 
+def watch(**kw):
+    """(developer aid: terms whose values a counterexample listing shows -- /tmp dev script; no effect on any obligation)"""
+    cur().ghost.setdefault("watch", {}).update(kw)
+
+
 def same_scroll_state(s, old):
     return both(s.offset_rows == old.offset_rows, s.inset_fraction[0] == old.inset_fraction[0], s.inset_fraction[1] == old.inset_fraction[1])
 
@@ -232,7 +237,8 @@ class lb_change_focus_scroll:
             yield "only-without-a-direction-for-a-cursor-column", both(V.opt_isnone(a.coming_from), isinstance(a.cursor_coords, tuple) and len(a.cursor_coords) == 1)
         else:
             yield "only-for-an-inset-that-hides-the-target-or-a-cursor-row-outside-it", either(both(final < 0, final + rows <= 0), _cursor_row_bad(a, rows))
-            yield "focus-already-moved", walker_focus(s, "now")[1] == a.position
+            now = walker_focus(s, "now")
+            yield "focus-already-moved", both(neg(mk_bool(now[0].isnone)), now[1] == a.position, eq(val(now[0]), tw))
 
     # ---- callee use: the walker has a new state, in which its focus is the position asked, with the widget it had there
     def effects(old, s, a, result):
@@ -256,8 +262,210 @@ class lb_change_focus_scroll:
             tw, rows, final = _cf_final(old, a, P.version(st, s._body))
             yield "only-for-an-inset-that-hides-the-target-or-a-cursor-row-outside-it", either(both(final < 0, final + rows <= 0), _cursor_row_bad(a, rows))
             P.bump(st, s._body)
-            yield "focus-already-moved", walker_focus(s, "now")[1] == a.position
+            now = walker_focus(s, "now")
+            yield "focus-already-moved", both(neg(mk_bool(now[0].isnone)), now[1] == a.position, eq(val(now[0]), tw))
         elif exc.cls is ValueError:
             yield "only-without-a-direction-for-a-cursor-column", both(V.opt_isnone(a.coming_from), isinstance(a.cursor_coords, tuple) and len(a.cursor_coords) == 1)
         else:
             yield "walker-refused-nothing-moved", same_scroll_state(s, old)
+
+
+# ------------------------------------------------------------------------------------------------ _keypress_up / _keypress_down
+
+from contracts.C07_listbox import CV_RESULT, cps_rows, lb_calculate_visible, lb_calculate_visible_empty  # noqa: E402
+
+_CV = LBX + "ListBox.calculate_visible"
+_CF = LBX + "ListBox.change_focus"
+
+
+def rows_monotone(fill, a, b):
+    """Instance of lemma `prefix-sum-monotone` (contracts/C19_containers.py) for the rows of a fill list (each >= 0, shape
+    Dim): 0 <= a <= b <= len  =>  cps(a) <= cps(b)."""
+    f = Q.seq_cpsum(fill, 2)
+    cur().assume(implies(both(0 <= a, a <= b, b <= Q.seq_len(fill)), f(a) <= f(b)))
+
+
+def listed_hints(fill, i):
+    """Ground instances for listed item i: the per-item facts of calculate_visible at i and at the outermost item, and the
+    monotonicity of the row sums around i (lemma prefix-sum-monotone)."""
+    n = Q.seq_len(fill)
+    V.instantiate(i, n - 1)
+    rows_monotone(fill, 0, i)
+    rows_monotone(fill, i + 1, n - 1)
+    rows_monotone(fill, i + 1, n)
+    rows_monotone(fill, n - 1, n)
+
+
+class Vis:
+    """What the calculate_visible call of this path reported (callee side: contracts/C07_listbox.py cv_clauses), with its
+    witnesses: ka / kb items walked above / below, kt / kl the topmost / bottommost listed item as chain indices."""
+
+    def __init__(self):
+        g = cur().ghost
+        self.ch, self.ka, self.kb, self.kl, result = g["cv_witness"]
+        self.kt = g["cv_kt"]
+        (self.off, self.fw, self.fpos, self.frows, self.cursor), (self.tt, above), (self.tb, below) = result
+        self.above, self.below = g["cv_lists"]  # (the lists as returned: immutable values)
+        self.na, self.nb = Q.seq_len(self.above), Q.seq_len(self.below)
+        self.A, self.B = Q.seq_cpsum(self.above, 2), Q.seq_cpsum(self.below, 2)
+        # lemma chain-rows-monotone, instantiated: the outermost listed items exist (they are not beyond the items walked)
+        self.ch.mono(UP, self.kt, self.ka)
+        self.ch.mono(DOWN, self.kl, self.kb)
+        watch(off=self.off, tt=self.tt, tb=self.tb, na=self.na, nb=self.nb, frows=self.frows, kt=self.kt, ka=self.ka, kl=self.kl, kb=self.kb, cursor=self.cursor)
+
+    def cand(self, fill, j):
+        """Listed item j has rows and is selectable: what 'up' / 'down' look for."""
+        w, _p, r = Q.seq_get(fill, j)
+        return both(neg(r == 0), W.call_quiet(cur(), w, "selectable", {}))
+
+
+def _opt_widget_is(x, w):
+    """optional widget x is the widget w"""
+    return both(neg(V.opt_isnone(x)), eq(val(x), w))
+
+
+def _up_loop_listed(v):
+    """Loop 0 of _keypress_up: the listed items above the focus, nearest first; i passed, none of them a candidate."""
+    vis = Vis()
+    i, n = v.i_, vis.na
+    q = V.arbitrary("up.q")
+    V.instantiate(q, i - 1)
+    listed_hints(vis.above, i)
+    last = Q.seq_get(vis.above, imax(i - 1, 0))
+    yield "offset-of-the-item-reached", v.row_offset == vis.off - vis.A(i)
+    yield "position-widget-rows-of-the-last-item-passed", ite(i >= 1, both(v.pos == last[1], _opt_widget_is(v.widget, last[0]), (v.rows == last[2]) if "rows" in v else False), both(v.pos == vis.fpos, V.opt_isnone(v.widget)))
+    yield "no-candidate-passed", implies(both(0 <= q, q < i), neg(vis.cand(vis.above, q)))
+
+
+def _up_loop_scroll(v):
+    """Loop 1 of _keypress_up: m widgets fetched from above the topmost listed item, chain(UP, kt + 1 ..); all but the last
+    one have no rows (the loop goes on only while the row to scroll in is still missing) and the last one is no candidate."""
+    st = cur()
+    vis = Vis()
+    m = v.i_
+    if st.ghost.get("inv_assuming"):
+        st.ghost["up_m"] = m
+    ch = vis.ch
+    K = vis.kt + m
+    ch.unfold(UP, K)
+    ch.unfold(UP, K - 1)
+    e = v.at_entry
+    rows_T = rows_of(val(v.widget), v.maxcol, True)
+    yield "at-the-mth-item-above-the-topmost-listed", both(ch.ok(UP, K), v.pos == ch.pos(UP, K))
+    yield "nothing-fetched-yet", implies(m == 0, both(V.opt_eq(v.widget, e.widget), v.rows == e.rows, v.row_offset == 1 - vis.tt))
+    yield "last-one-fetched", implies(m >= 1, both(_opt_widget_is(v.widget, ch.widget(UP, K)), v.rows == rows_T, neg(both(neg(v.rows == 0), W.call_quiet(st, val(v.widget), "selectable", {}))),
+                                                   vis.tt == 0, v.row_offset == 1 - v.rows))
+
+
+def _up_requires(s, a):
+    return both(no_change_pending(s), nonempty(s), size_ok(a.size), lb_ok(s))
+
+
+def _handled_state(s, rows, final, maxrow):
+    """After a handled key: the scroll state stored is sane and puts a row of the (new) focus widget inside the box."""
+    return both(lb_ok(s), final < maxrow, either(final >= 0, final + rows >= 1))
+
+
+@contract(LBX + "ListBox._keypress_up", property=("C07", "C08"), replayable=False, contract_overrides={_CF: lb_change_focus_scroll})
+class lb_keypress_up:
+    """'up' (and the mouse wheel): the nearest listed item above the focus that has rows and is selectable takes the focus,
+    where it is, pulled into the box if it is cut off.  Without one the view scrolls up by one row: the walker is asked for
+    items above the topmost listed one until one with rows turns up (a selectable one takes the focus, flush with the top);
+    the focus widget keeps the focus one row lower as long as it is selectable and it and its cursor stay inside the box, else
+    the topmost item takes it.  At the top of the list (nothing cut off, the walker has nothing with rows above) the key
+    comes back (True) and nothing has changed."""
+
+    self_shape = LB
+    params = dict(size=Tup(Int, Int))
+    result = Opt(Bool)
+    # ListBoxError: only for a widget whose height depends on `focus` (C07-KF1: listed with rows(focus=False), stored with
+    # rows(focus=True)); IndexError / KeyError: only when the walker refuses a position it has just reported itself
+    raises = (_lbmod.ListBoxError, IndexError, KeyError)
+    modifies = ("offset_rows", "inset_fraction", "pref_col")
+    loops = {
+        0: Loop(invariant=_up_loop_listed, shapes={"widget": Opt(WIDGET), "pos": Int, "rows": Dim}),
+        1: Loop(invariant=_up_loop_scroll, counter=True, shapes={"widget": Opt(WIDGET), "pos": Int, "rows": Dim}),
+    }
+
+    requires = staticmethod(_up_requires)
+
+    def ensures(old, s, a, result):
+        st = cur()
+        maxcol, maxrow = a.size
+        vis = Vis()
+        ch = vis.ch
+        q = V.arbitrary("up.q")
+        now = walker_focus(s, "exit")
+        was = walker_focus(old, "entry")
+        unchanged = both(same_scroll_state(s, old), V.opt_eq(s.pref_col, old.pref_col), now[1] == was[1])
+        yield "handled-or-not", either(V.opt_isnone(result), V.opt_eq(result, True))
+        if "loop_index" in st.ghost:
+            # ---- a listed candidate
+            i = st.ghost["loop_index"]
+            listed_hints(vis.above, i)
+            w, p, r = Q.seq_get(vis.above, i)
+            tw, rows = widget_at(old._body, 0, p), rows_of(widget_at(old._body, 0, p), maxcol, True)
+            final = snapped(vis.off - vis.A(i + 1), "below", True, rows, maxrow, maxrow - 1)
+            yield "nearest-listed-selectable-item-with-rows-takes-the-focus", both(V.opt_isnone(result), vis.cand(vis.above, i), implies(both(0 <= q, q < i), neg(vis.cand(vis.above, q))),
+                                                                                   now[1] == p, eq(val(now[0]), w))
+            yield "where-it-is-pulled-into-the-box", stored_as(s, final, rows)
+            yield "a-focus-row-inside-the-box", _handled_state(s, rows, final, maxrow)
+            return
+        yield "no-listed-candidate", implies(both(0 <= q, q < vis.na), neg(vis.cand(vis.above, q)))
+        m = st.ghost["up_m"]
+        watch(m=m, result=result, off1=s.offset_rows, inum1=s.inset_fraction[0], iden1=s.inset_fraction[1])
+        if 1 not in st.ghost.get("loop_end", {}):
+            # ---- left from inside the scroll loop, while fetching item kt + m + 1
+            K = vis.kt + m + 1
+            ch.unfold(UP, K - 1)
+            if not is_none(result):
+                yield "comes-back-only-at-the-top-of-the-list-nothing-changed", both(V.opt_eq(result, True), vis.tt == 0, neg(ch.ok(UP, K)), unchanged)
+                return
+            tw = ch.widget(UP, K)
+            rows = rows_of(tw, maxcol, True)
+            final = snapped(1 - rows, "below", True, rows, maxrow, maxrow - 1)
+            yield "selectable-item-scrolled-in-takes-the-focus", both(vis.tt == 0, ch.ok(UP, K), rows >= 1, W.call_quiet(st, tw, "selectable", {}), now[1] == ch.pos(UP, K), eq(val(now[0]), tw))
+            yield "flush-with-the-top-if-it-fits", both(stored_as(s, final, rows), implies(rows <= maxrow, final == 0))
+            yield "a-focus-row-inside-the-box", _handled_state(s, rows, final, maxrow)
+            return
+        # ---- the scroll loop has run out: the row to scroll in is there (or the topmost item was cut off already)
+        K = vis.kt + m
+        ch.unfold(UP, K)
+        ch.unfold(UP, K - 1)
+        sel_f = W.call_quiet(st, vis.fw, "selectable", {})
+        leaves = either(neg(sel_f), vis.off + 1 >= maxrow)
+        cy = val(vis.cursor)[1] if not (vis.cursor is None) else 0
+        cursor_leaves = both(neg(leaves), neg(V.opt_isnone(vis.cursor)), cy + vis.off + 1 >= maxrow)
+        topmost_is_focus = both(vis.na == 0, m == 0)
+        yield "handled", V.opt_isnone(result)
+        # the focus widget keeps the focus, one row lower
+        keeps = both(neg(leaves), neg(cursor_leaves))
+        yield "focus-kept-one-row-lower", implies(either(keeps, both(leaves, topmost_is_focus)), both(now[1] == was[1], stored_as(s, vis.off + 1, vis.frows), _handled_state(s, vis.frows, vis.off + 1, maxrow)))
+        # the topmost item takes the focus: the last one fetched (its last row becomes row 0), else the topmost listed one
+        tw = ite(m >= 1, ch.widget(UP, K), Q.seq_get(vis.above, imax(vis.na - 1, 0))[0])
+        rows = rows_of(tw, maxcol, True)
+        asked = ite(m >= 1, 1 - rows, 1 - vis.tt)
+        final = snapped(asked, "below", W.call_quiet(st, tw, "selectable", {}), rows, maxrow, maxrow - 1)
+        yield "topmost-item-takes-the-focus-when-the-focus-widget-cannot-keep-it", implies(both(leaves, neg(topmost_is_focus)),
+                                                                                          both(now[1] == ch.pos(UP, K), eq(val(now[0]), tw), stored_as(s, final, rows), _handled_state(s, rows, final, maxrow)))
+        # the cursor would leave the box: the topmost item (fetched now if the focus widget is the topmost one) takes the focus
+        ch.unfold(UP, K + 1)
+        K2 = ite(topmost_is_focus, K + 1, K)
+        tw2 = ite(topmost_is_focus, ch.widget(UP, K + 1), tw)
+        rows2 = rows_of(tw2, maxcol, True)
+        measured = ite(either(topmost_is_focus, m >= 1), rows2, Q.seq_get(vis.above, imax(vis.na - 1, 0))[2])
+        asked2 = ite(topmost_is_focus, 1 - vis.tt - rows2, asked)
+        asked2 = ite(-asked2 >= measured, -(measured - 1), asked2)
+        final2 = snapped(asked2, "below", W.call_quiet(st, tw2, "selectable", {}), rows2, maxrow, maxrow - 1)
+        stuck = both(topmost_is_focus, neg(ch.ok(UP, K + 1)))
+        yield "cursor-would-leave-nothing-above-nothing-changed", implies(both(cursor_leaves, stuck), unchanged)
+        yield "cursor-would-leave-topmost-item-takes-the-focus", implies(both(cursor_leaves, neg(stuck)),
+                                                                         both(now[1] == ch.pos(UP, K2), eq(val(now[0]), tw2), stored_as(s, final2, rows2), lb_ok(s)))
+
+    def on_raise(old, s, a, exc):
+        if exc.cls is _lbmod.ListBoxError:
+            now = walker_focus(s, "now")
+            tw = val(now[0])
+            yield "only-for-a-new-focus-widget-whose-height-depends-on-focus", neg(rows_of(tw, a.size[0], True) == rows_of(tw, a.size[0], False))
+        else:
+            yield "walker-refused-a-position-it-reported-nothing-moved", both(same_scroll_state(s, old), walker_focus(s, "now")[1] == walker_focus(old, "entry")[1])
